@@ -1,7 +1,7 @@
 (* Extraction of the executable model.  ExtrOcamlBasic only: bool, option,
    list, prod, unit, sumbool map to OCaml natives; N/Z/positive/nat stay Coq
    datatypes.  No Extract Constant / Extract Inductive of our own. *)
-From Redact Require Import Bytes Tokens Utf8 Markers Escape EscSpec Buffer Ops BufInv Fmt OSane Value LBuf Printer Api Forward.
+From Redact Require Import Bytes Tokens Utf8 Markers Escape EscSpec Buffer Ops BufInv BufMem Fmt OSane Value LBuf Printer Api Forward.
 Require Extraction.
 Require Import ExtrOcamlBasic.
 Extraction Language OCaml.
@@ -10,4 +10,4 @@ Extraction "model.ml"
   redact_b strip_b escape_markers_b del_env_b
   decode_rune decode_last_rune last_invalid valid_rune rune_len encode_rune rune_count valid_utf8
   escape escape_full escape_bytes esc_spec
-  init set_mode write write_byte write_rune_v0 finalize redactable_bytes string_of len_of take reset write_rune step run output invb goodv op_ok rawok raw_payload_ok mcl mcl_st wf_st sprint sprintf errorf sprintfn builder join jointo_acts make_format parse_directive osaneb Z.add Z.mul Z.opp.
+  init set_mode write write_byte write_rune_v0 finalize redactable_bytes string_of len_of take reset write_rune step run output invb goodv op_ok rawok raw_payload_ok mcl mcl_st wf_st sprint sprintf errorf sprintfn builder join jointo_acts make_format parse_directive osaneb cstep cinit cabs ccap Z.add Z.mul Z.opp.
